@@ -1102,6 +1102,7 @@ func checkC14(c *Ctx) {
 		return strings.Contains(pos, "sparse.go") || strings.Contains(pos, "cut.go")
 	})
 	checkGhost(c)
+	checkSparseKeep(c)
 	if ms := anchor(c, "(*"+pkgMemory+".Sparse).Missing"); ms != nil {
 		n := 0
 		for _, cs := range Calls(ms) {
